@@ -7,15 +7,16 @@ but is accepted collides with the in-range value it wraps to, and the probe set
 contains that value.
 """
 import random
+import re
 import zlib
 
 from .. import core, driver, rt
 from ..gen import corpus
 
-RULE = ("every corpus instruction form with a numeric operand (tests/comparison/*.txt) x a probe set of ~330 values "
+RULE = ("every instruction form with a numeric operand from tests/comparison/*.txt plus, for all 68 CPUs, one representative per (mnemonic, operand shape) that the real disassembler renders in the 16-bit sweep and the assembler accepts x a probe set of ~330 values "
         "(0..9, +-2^k, +-2^k+-1 for k<=31, and address-relative distances +-2^k, +-2^k+-1/2/4 around the load address) "
-        "assembled by the real assembler at 0x1000; accepted values are grouped by emitted bytes; quick takes a seeded "
-        "sample of the forms, thorough all. distinct_nontrivial = forms with >= 2 accepted and >= 1 rejected probe "
+        "assembled by the real assembler at 0x1000; accepted values are grouped by emitted bytes; quick and thorough both "
+        "take all forms (a reduced probe set would change which colliding pair names a finding). distinct_nontrivial = forms with >= 2 accepted and >= 1 rejected probe "
         "(decisive forms).")
 
 A = 0x1000
@@ -114,16 +115,77 @@ def work(item):
     return out
 
 
+HARVEST_TAILS = [bytes(14), bytes((i * 73 + 41) & 0xff for i in range(14))]
+HARVEST_CAP = 600
+HARVEST_PER_MNEMONIC = 24
+EXTRA_ANNOT = re.compile(r"\s*\((?:offset|address)\s*[:=][^)]*\)")
+
+
+def harvest(item):
+    """Forms from the binary side (DESIGN.md section 2, corpus source (b)): every (mnemonic, operand shape) the real
+    disassembler renders for the 65536 leading patterns whose rendering has a numeric literal and is accepted by the
+    real assembler at A - one representative each, skipping shapes the comparison file already provides."""
+    cpu, bpa, have = item
+    have = set(have)
+    vd = core.get_vdrv(20)
+    vd.set_timeout(3)
+    out = {"cpu": cpu, "harvest": []}
+    rows = []
+    for tail in HARVEST_TAILS:      # zeros hide zero displacements/immediates (`ld (ix),0x00`), so also a non-zero filling
+        try:
+            rows += vd.sweep(cpu, A, 0, 65536, tail, 1, 0, 0)["rows"]
+        except driver.Died:
+            pass
+    seen = set()
+    per_mn = {}
+    tried = 0
+    for n, t in rows:
+        if n <= 0 or rt.is_unknown(t):
+            continue
+        t = EXTRA_ANNOT.sub("", rt.strip_annotations(t)).rstrip()
+        lits = corpus.literals(t)
+        if not lits:
+            continue
+        key = (corpus.mnemonic(t), corpus.shape(t))
+        if key in have:
+            continue
+        # one representative per operand shape with register numbers erased (r4/r5/... do not change the field)
+        key = (key[0], corpus.REG_RE.sub("R", key[1]))
+        if key in seen:
+            continue
+        seen.add(key)
+        if per_mn.get(key[0], 0) >= HARVEST_PER_MNEMONIC:
+            continue
+        tried += 1
+        if tried > 4 * HARVEST_CAP:
+            break
+        try:
+            a = rt.asm_text(vd, cpu, A, t, bpa)
+        except driver.Died:
+            continue
+        if not a["ok"] or not a["bytes"]:
+            continue
+        out["harvest"].append(t)
+        per_mn[key[0]] = per_mn.get(key[0], 0) + 1
+        if len(out["harvest"]) >= HARVEST_CAP:
+            break
+    return out
+
+
 def gen_items(run, cpuinfo):
     C = corpus.load()
-    quick = run.tier == "quick"
+    have = {cpu: sorted({(corpus.mnemonic(ln), corpus.shape(ln)) for ln in C.get(cpu, [])}) for cpu in cpuinfo}
+    harvested = {}
+    hitems = [(cpu, cpuinfo[cpu]["bpa"], have[cpu]) for cpu in sorted(cpuinfo) if cpuinfo[cpu]["dis"]]
+    for r in core.pmap(harvest, hitems, chunk=1):
+        if "harvest" in r:
+            harvested[r["cpu"]] = r["harvest"]
+    run.cov["forms_from_disassembler_sweep"] = {c: len(v) for c, v in sorted(harvested.items()) if v}
     items = []
-    for cpu in sorted(C):
-        if cpu not in cpuinfo:
-            continue
+    for cpu in sorted(cpuinfo):
         forms = []
         seen = set()
-        for ln in C[cpu]:
+        for ln in C.get(cpu, []) + harvested.get(cpu, []):
             for k, m in enumerate(corpus.literals(ln)):
                 # one form per (shape, literal index): different register choices do not change the field
                 key = (corpus.mnemonic(ln), corpus.shape(ln), k)
@@ -131,10 +193,8 @@ def gen_items(run, cpuinfo):
                     continue
                 seen.add(key)
                 forms.append((ln, k))
-        if quick:
-            rng = random.Random(run.seed * 104729 + zlib.crc32(cpu.encode()))
-            n = max(4, len(forms) // 4)
-            forms = rng.sample(forms, min(n, len(forms)))
+        # the whole form set costs about a minute on 16 cores, so the quick tier covers it too: a single widened
+        # range check anywhere in the corpus is inside the quick domain
         for i in range(0, len(forms), 4):
             items.append((cpu, cpuinfo[cpu]["bpa"], forms[i:i + 4]))
     return items
